@@ -442,31 +442,32 @@ namespace c09
   // ------------------------------------------------------------------------------------------
   // feat3-side mocks
   // ------------------------------------------------------------------------------------------
-  template<typename DT, typename IT>
-  struct MockSolver : public FEAT::Solver::SolverBase<DenseVector<DT, IT>>
+  template<typename B>
+  struct MockSolver : public FEAT::Solver::SolverBase<typename B::V>
   {
-    typedef DenseVector<DT, IT> V;
+    typedef typename B::V V; typedef typename B::DT DT;
     std::string evname; int n; std::vector<DT> S;
     MockSolver(const std::string& e, int nn, std::vector<DT>&& s) : evname(e), n(nn), S(std::move(s)) {}
     virtual String name() const override { return "c09mock"; }
     virtual FEAT::Solver::Status apply(V& cor, const V& def) override
     {
       trace().push_back(evname);
-      VF_CHECK((int)cor.size() == n && (int)def.size() == n, "solver object " << evname << " called with vectors of size " << cor.size() << "/" << def.size() << ", level size " << n);
-      VF_CHECK(cor.elements() != def.elements(), "solver object " << evname << " called with aliased vectors");
-      const DT* d = def.elements(); DT* c = cor.elements();
+      VF_CHECK(B::size(cor) == n && B::size(def) == n, "solver object " << evname << " called with vectors of size " << B::size(cor) << "/" << B::size(def) << ", level size " << n);
+      VF_CHECK(B::data(cor) != B::data(def), "solver object " << evname << " called with aliased vectors");
+      const DT* d = B::data(def); DT* c = B::data(cor);
       for(int i = 0; i < n; ++i) { DT s = DT(0); for(int j = 0; j < n; ++j) s += S[size_t(i) * n + j] * d[j]; c[i] = s; }
       return FEAT::Solver::Status::success;
     }
   };
 
-  template<typename M>
-  struct LogTransfer : public FEAT::LAFEM::Transfer<M>
+  /// the backend's real transfer operator (LAFEM::Transfer / Global::Transfer) with logging rest/prol
+  template<typename B>
+  struct LogTransfer : public B::T0
   {
-    typedef FEAT::LAFEM::Transfer<M> Base; typedef typename Base::VectorType VectorType;
+    typedef typename B::T0 Base; typedef typename Base::VectorType VectorType; typedef typename B::LM LM;
     int lvl;
-    LogTransfer(M&& p, M&& r, int l) : Base(std::move(p), std::move(r)), lvl(l) {}
-    LogTransfer(LogTransfer&& o) : Base(std::move(o)), lvl(o.lvl) {}
+    LogTransfer(LM&& p, LM&& r, int l) : Base(B::make_transfer(std::move(p), std::move(r))), lvl(l) {}
+    LogTransfer(LogTransfer&& o) : Base(std::move(static_cast<Base&>(o))), lvl(o.lvl) {}
     bool rest(const VectorType& f, VectorType& c) const { trace().push_back("L" + std::to_string(lvl) + ":rest"); return Base::rest(f, c); }
     bool prol(VectorType& f, const VectorType& c) const { trace().push_back("L" + std::to_string(lvl) + ":prol"); return Base::prol(f, c); }
   };
